@@ -77,6 +77,39 @@ fn value(s: &[u8], i: usize, depth: usize) -> Option<usize> {
         _ => None,
     }
 }
+// true iff s — a prefix that ends at a token boundary — contains no definite syntax error (it can be completed)
+fn viable_prefix(s: &[u8]) -> bool {
+    #[derive(PartialEq)]
+    enum St { Val, ValOrEnd, AfterVal, KeyOrEnd, Key, Colon }
+    let (mut stack, mut st, mut i) = (Vec::<u8>::new(), St::Val, 0usize);
+    loop {
+        i = ws(s, i);
+        if i >= s.len() { return true; }
+        let c = s[i];
+        match st {
+            St::Val | St::ValOrEnd => {
+                if st == St::ValOrEnd && c == b']' { stack.pop(); i += 1; st = St::AfterVal; continue; }
+                match c {
+                    b'[' => { stack.push(c); i += 1; st = St::ValOrEnd; }
+                    b'{' => { stack.push(c); i += 1; st = St::KeyOrEnd; }
+                    _ => match value(s, i, 0) { Some(e) => { i = e; st = St::AfterVal; } None => return false },
+                }
+            }
+            St::AfterVal => match (stack.last().copied(), c) {
+                (Some(b'['), b',') => { i += 1; st = St::Val; }
+                (Some(b'{'), b',') => { i += 1; st = St::Key; }
+                (Some(b'['), b']') | (Some(b'{'), b'}') => { stack.pop(); i += 1; }
+                _ => return false,
+            },
+            St::KeyOrEnd | St::Key => {
+                if st == St::KeyOrEnd && c == b'}' { stack.pop(); i += 1; st = St::AfterVal; continue; }
+                if c != b'"' { return false; }
+                match string(s, i + 1) { Some(e) => { i = e; st = St::Colon; } None => return false }
+            }
+            St::Colon => { if c != b':' { return false; } i += 1; st = St::Val; }
+        }
+    }
+}
 fn is_text(s: &[u8]) -> bool { match value(s, 0, 0) { Some(e) => ws(s, e) == s.len(), None => false } }
 fn line_col(s: &[u8], off: usize) -> (usize, usize) {
     let (mut l, mut c) = (1, 0);
@@ -91,6 +124,7 @@ fn seeds() -> Vec<Vec<u8>> {
         "\"\\u00e9\"", "\"\\ud83d\\ude00\"", "[]", "[1]", "[1,2]", "[1, 2, 3]", "[[]]", "[[1],[2]]", "[\"a\",\"b\"]", "[true,false,null]",
         "{}", "{\"a\":1}", "{\"a\":1,\"b\":2}", "{\"a\":{\"b\":[1,2]}}", "{\"a\":\"x\",\"b\":[],\"c\":{}}", " [ 1 , 2 ] ", "{ \"a\" : 1 , \"b\" : 2 }",
         "[1.5,2e3,-0.1]", "{\"k\":\"\\\"q\\\"\"}", "[\"\\\\\",1]", "{\"a\":1}\n", "[\n1,\n2\n]", "{\"a\":[1,{\"b\":null}],\"c\":\"d\"}",
+        "{\"a\":[1,2],\"b\":true}", "[[1,2],3]", "{\"a\":{\"b\":1,\"x\":2},\"c\":3}",
     ];
     base.iter().map(|s| s.as_bytes().to_vec()).collect()
 }
@@ -194,6 +228,31 @@ fn main() {
                     // document truncated right after the fragment and closed minimally must not contain junk numbers
                     let off = raw.as_ptr() as usize - txt.as_ptr() as usize;
                     for tok in txt[..off].split(|c: char| ",:[]{} \n".contains(c)) { let t = tok.as_bytes(); if !t.is_empty() && (t[0] == b'-' || t[0].is_ascii_digit()) && number(t, 0) != Some(t.len()) { report("C14", format!("get({}, {:?}) succeeded although the traversed prefix contains the malformed number {:?}", show(d), path, tok)); } }
+                }
+            }
+        }
+    }
+    // C14: checked get_many — every returned fragment is well formed and so is everything traversed before it
+    if want("C14") {
+        use sonic_rs::{pointer, PointerTree};
+        let mut trees: Vec<PointerTree> = Vec::new();
+        { let mut t = PointerTree::new(); t.add_path(&pointer!["a", 0]); t.add_path(&pointer!["b"]); trees.push(t); }
+        { let mut t = PointerTree::new(); t.add_path(&pointer![0, 0]); t.add_path(&pointer![1]); trees.push(t); }
+        { let mut t = PointerTree::new(); t.add_path(&pointer!["a", "b"]); t.add_path(&pointer!["c"]); trees.push(t); }
+        { let mut t = PointerTree::new(); t.add_path(&pointer![0]); t.add_path(&pointer![1]); trees.push(t); }
+        for d in &docs {
+            let Ok(txt) = std::str::from_utf8(d) else { continue };
+            for (k, t) in trees.iter().enumerate() {
+                let r = catch_unwind(AssertUnwindSafe(|| sonic_rs::get_many(txt, t)));
+                let Ok(r) = r else { continue };
+                if let Ok(v) = r {
+                    let mut far = 0usize;
+                    for lv in v.iter().flatten() {
+                        let raw = lv.as_raw_str();
+                        if !is_text(raw.as_bytes()) { report("C14", format!("get_many({}, tree #{k}) returned malformed fragment {:?}", show(d), raw)); }
+                        far = far.max(raw.as_ptr() as usize - txt.as_ptr() as usize);
+                    }
+                    if !viable_prefix(&d[..far.min(d.len())]) { report("C14", format!("get_many({}, tree #{k}) succeeded although the text traversed before the last returned value (offset {far}) is malformed", show(d))); }
                 }
             }
         }
